@@ -475,22 +475,82 @@ func (m *Model) RunBranch(s *Sink, rule string) {
 	}
 	tk := fnKey(tf)
 	tc := evalCallsOn(m, tf, ".Condition")
-	tcons := evalCallsOn(m, tf, ".Consequence")
-	talt := evalCallsOn(m, tf, ".Alternative")
+	tcons := evalSitesOn(m, tf, ".Consequence")
+	talt := evalSitesOn(m, tf, ".Alternative")
 	if len(tc) != 1 || len(tcons) != 1 || len(talt) != 1 {
-		s.Undecided(rule, tk+"|shape", m.Pos(tf.Pos()), "expected one evaluation each of Condition, Consequence and Alternative")
+		s.Undecided(rule, tk+"|shape", m.Pos(tf.Pos()), "expected one evaluation each of Condition, Consequence and Alternative (directly or as one arm of a selected operand)")
 		return
 	}
-	if truthFactOn(tcons[0].Block(), tc[0], true) && errorFactOn(tcons[0].Block(), tc[0], false) {
-		s.OK(rule, tk+"|consequence under truthy condition", m.InstrPos(tcons[0]), "dominated by isTruthy(condition) true")
+	if truthFactIn(tcons[0].facts, tc[0], true) && errorFactIn(tcons[0].facts, tc[0], false) {
+		s.OK(rule, tk+"|consequence under truthy condition", m.InstrPos(tcons[0].call), "evaluated (or selected for evaluation) under isTruthy(condition) true")
 	} else {
-		s.Violation(rule, tk+"|consequence under truthy condition", m.InstrPos(tcons[0]), "the ternary's consequence is not evaluated exactly under isTruthy(condition)")
+		s.Violation(rule, tk+"|consequence under truthy condition", m.InstrPos(tcons[0].call), "the ternary's consequence is not evaluated exactly under isTruthy(condition)")
 	}
-	if truthFactOn(talt[0].Block(), tc[0], false) && errorFactOn(talt[0].Block(), tc[0], false) {
-		s.OK(rule, tk+"|alternative under falsy condition", m.InstrPos(talt[0]), "dominated by isTruthy(condition) false")
+	if truthFactIn(talt[0].facts, tc[0], false) && errorFactIn(talt[0].facts, tc[0], false) {
+		s.OK(rule, tk+"|alternative under falsy condition", m.InstrPos(talt[0].call), "evaluated (or selected for evaluation) under isTruthy(condition) false")
 	} else {
-		s.Violation(rule, tk+"|alternative under falsy condition", m.InstrPos(talt[0]), "the ternary's else part is not evaluated exactly under !isTruthy(condition)")
+		s.Violation(rule, tk+"|alternative under falsy condition", m.InstrPos(talt[0].call), "the ternary's else part is not evaluated exactly under !isTruthy(condition)")
 	}
+}
+
+// evalSite: an evaluation e.Eval(x, env) of a node field, with the branch facts under which that field is the operand:
+// the facts dominating the call, plus — when the operand is selected first (`branch := a; if c { branch = b }; Eval(branch)`) —
+// the facts of the phi edge that carries the field.
+type evalSite struct {
+	call  *ssa.Call
+	facts []Fact
+}
+
+func evalSitesOn(m *Model, fn *ssa.Function, suffix string) []evalSite {
+	var out []evalSite
+	for _, b := range fn.Blocks {
+		for _, in := range b.Instrs {
+			c, ok := in.(*ssa.Call)
+			if !ok || !isEvalCall(m, c) || len(c.Call.Args) < 2 {
+				continue
+			}
+			arg := stripIface(c.Call.Args[1])
+			if strings.HasSuffix(fieldPathOf(arg), suffix) {
+				out = append(out, evalSite{c, expandFacts(factsAt(b))})
+				continue
+			}
+			phi, isPhi := arg.(*ssa.Phi)
+			if !isPhi {
+				continue
+			}
+			for i, e := range phi.Edges {
+				if !strings.HasSuffix(fieldPathOf(stripIface(e)), suffix) {
+					continue
+				}
+				pred := phi.Block().Preds[i]
+				fs := append([]Fact{}, factsAt(pred)...)
+				fs = append(fs, edgeFact(pred, phi.Block())...)
+				fs = append(fs, factsAt(b)...)
+				out = append(out, evalSite{c, expandFacts(fs)})
+			}
+		}
+	}
+	return out
+}
+
+func truthFactIn(facts []Fact, v ssa.Value, want bool) bool {
+	for _, f := range facts {
+		c, ok := f.Cond.(*ssa.Call)
+		if ok && staticCalleeNamed(c, "evaluator", "isTruthy") && len(c.Call.Args) == 1 && c.Call.Args[0] == v && f.Holds == want {
+			return true
+		}
+	}
+	return false
+}
+
+func errorFactIn(facts []Fact, v ssa.Value, want bool) bool {
+	for _, f := range facts {
+		c, ok := f.Cond.(*ssa.Call)
+		if ok && staticCalleeNamed(c, "evaluator", "isError") && len(c.Call.Args) == 1 && c.Call.Args[0] == v && f.Holds == want {
+			return true
+		}
+	}
+	return false
 }
 
 var _ = types.Typ
